@@ -228,15 +228,35 @@ def run(repo, rep, tier):
         r3.sites += 1
         r3.functions.add(st.fq)
         param = [p for p in st.params if p != 'self'][0]
-        assigns = [n for n in walk_no_nested(st.node)
+        # judged per return path of the setter with its private helpers
+        # inlined: what is stored in self._value is cimvalue(<param>,
+        # self.type) - or None where the parameter is known to be None
+        # (cimvalue(None, t) is None)
+        from ..inline import Flat as _Flat
+        from ..paths import return_paths as _rp
+        from ..cfg import GuardWalker as _GW
+        stf = _Flat(st)
+        assigns = [n for n in walk_no_nested(stf.node)
                    if isinstance(n, ast.Assign) and
                    any(dotted(t) == 'self._value' for t in n.targets)]
-        ok = bool(assigns)
-        for a in assigns:
-            v = a.value
+        spaths = _rp(stf, max_paths=64) or []
+        ok = bool(assigns) and bool(spaths)
+        for p_ in spaths:
+            stores = [e for e in p_.effects if isinstance(e, ast.Assign) and
+                      any(dotted(t) == 'self._value' for t in e.targets)]
+            if not stores:
+                ok = False
+                continue
+            v = p_.resolve(stores[-1].value)
             good = isinstance(v, ast.Call) and dotted(v.func) == 'cimvalue' \
                 and len(v.args) == 2 and norm(v.args[0]) == param and \
                 norm(v.args[1]) in ('self.type', 'self._type')
+            if not good and isinstance(v, ast.Constant) and v.value is None:
+                atoms = [a for t0, p0 in p_.facts
+                         for a in _GW._atoms(t0, p0)]
+                good = any((norm(t) == param + ' is None' and pol) or
+                           (norm(t) == param + ' is not None' and not pol)
+                           for t, pol in atoms)
             ok = ok and good
         r3.ob(ok, cname + '.value:setter',
               {'setter': st.qualname,
@@ -433,83 +453,7 @@ def run(repo, rep, tier):
                         '%s: the copy prints/behaves differently from the '
                         'original' % sl)
 
-    # ---------------- R7 ---------------------------------------------------
-    strf = dt.methods.get('__str__')
-    if strf is None:
-        raise AnalysisError('CIMDateTime.__str__ vanished')
-    r7.functions.add(strf.fq)
-    from ..paths import return_paths
-    spaths = return_paths(strf, max_paths=64, inline=False)
-    if not spaths:
-        raise AnalysisError('CIMDateTime.__str__: return paths not '
-                            'enumerable')
-    by_kind = {'interval': [], 'timestamp': []}
-    for p_ in spaths:
-        pol = [pl for e, pl in p_.facts if norm(e) == 'self.is_interval']
-        if not pol:
-            raise AnalysisError('CIMDateTime.__str__: a return path does '
-                                'not test self.is_interval')
-        by_kind['interval' if pol[0] else 'timestamp'].append(p_)
-    pats = {'interval': '_interval_pattern', 'timestamp':
-            '_timestamp_pattern'}
-    env = module_env(repo, typ, dt)
-    for kind, kpaths in by_kind.items():
-        r7.sites += 1
-        if not kpaths:
-            raise AnalysisError('CIMDateTime.__str__: no %s path' % kind)
-        node = dt.consts.get(pats[kind])
-        try:
-            pat = fold_const(node, env)
-        except NotConst:
-            pat = None
-        widths = _regex_field_widths(pat) if pat else None
-        ok = widths is not None
-        total = None
-        seq = []
-        for p_ in kpaths:
-            if not ok:
-                break
-            pieces = _text_pieces(p_.resolve(p_.value))
-            if pieces is None:
-                ok = False
-                break
-            pos = 0
-            seq = []
-            for pc in pieces:
-                if pc[0] == 'lit':
-                    for _ch in range(pc[1]):
-                        seq.append(('lit', 1, pos))
-                        pos += 1
-                else:
-                    ln, beg = pc[1], pc[2]
-                    seq.append(('field', ln, pos, pos if beg is None
-                                else beg))
-                    pos += ln or 0
-            total = pos
-            # every _to_str field begins where it is placed
-            ok = total == 25 and all(
-                x[0] != 'field' or x[3] == x[2] for x in seq)
-            # and every printed field is exactly one parser group (same
-            # start, same width); literals fall on parser literals or on
-            # groups that match only that literal text (':', '000')
-            pstart = {}
-            q = 0
-            for k_, w in widths:
-                pstart[q] = (k_, w)
-                q += w
-            ok = ok and q == 25 and all(
-                x[0] != 'field' or pstart.get(x[2], (None, None))[1] == x[1]
-                for x in seq)
-        r7.ob(ok, 'CIMDateTime.__str__:' + kind,
-              {'kind': kind, 'printer_layout': seq, 'total_width': total,
-               'parser_pattern': pat, 'parser_field_widths': widths})
-        if not ok:
-            rep.finding(r7, strf.qualname, kind + ' layout', 'layout', TYP,
-                        strf.node.lineno,
-                        'the %s string is not the 25-character layout its '
-                        'own parser pattern expects (printer fields %s, '
-                        'total %s; parser widths %s)'
-                        % (kind, [(x[1], x[2]) for x in seq], total, widths))
+    datetime_layout_rule(repo, rep, r7)
     # ---------------- R6 ---------------------------------------------------
     from ..inline import Flat
     atom = Flat(repo.func(TYP, 'atomic_to_cim_xml'))
@@ -730,6 +674,167 @@ def _typed_name(repo, module, func, name, tparam=None, fixed=True):
         return True
     r = repo.resolve_import(module, name.split('.')[0])
     return r is not None and r[1] in r[0].classes
+
+
+def datetime_layout_rule(repo, rep, r7):
+    """C06.R7 (also C07.R12: a datetime key is printed by str(CIMDateTime)
+    and recognised on the way back by CIMDateTime(text)): the string
+    CIMDateTime.__str__ returns is, on every return path, the 25-character
+    layout of its own parser pattern - every printed number field is exactly
+    one parser group of the same start and width - and every parser group
+    that receives a printed number field accepts *every* digit string of
+    that width (a group like `[0-8]\\d{2}` for the UTC offset rejects the
+    offsets 900..999 that the printer can write)."""
+    typ = repo.module(TYP)
+    dt = repo.cls(TYP, 'CIMDateTime')
+    strf = dt.methods.get('__str__')
+    if strf is None:
+        raise AnalysisError('CIMDateTime.__str__ vanished')
+    r7.functions.add(strf.fq)
+    from ..paths import return_paths
+    spaths = return_paths(strf, max_paths=64, inline=False)
+    if not spaths:
+        raise AnalysisError('CIMDateTime.__str__: return paths not '
+                            'enumerable')
+    by_kind = {'interval': [], 'timestamp': []}
+    for p_ in spaths:
+        pol = [pl for e, pl in p_.facts if norm(e) == 'self.is_interval']
+        if not pol:
+            raise AnalysisError('CIMDateTime.__str__: a return path does '
+                                'not test self.is_interval')
+        by_kind['interval' if pol[0] else 'timestamp'].append(p_)
+    pats = {'interval': '_interval_pattern', 'timestamp':
+            '_timestamp_pattern'}
+    env = module_env(repo, typ, dt)
+    for kind, kpaths in by_kind.items():
+        r7.sites += 1
+        if not kpaths:
+            raise AnalysisError('CIMDateTime.__str__: no %s path' % kind)
+        node = dt.consts.get(pats[kind])
+        try:
+            pat = fold_const(node, env)
+        except NotConst:
+            pat = None
+        widths = _regex_field_widths(pat) if pat else None
+        ok = widths is not None
+        total = None
+        seq = []
+        for p_ in kpaths:
+            if not ok:
+                break
+            pieces = _text_pieces(p_.resolve(p_.value))
+            if pieces is None:
+                ok = False
+                break
+            pos = 0
+            seq = []
+            for pc in pieces:
+                if pc[0] == 'lit':
+                    for _ch in range(pc[1]):
+                        seq.append(('lit', 1, pos))
+                        pos += 1
+                else:
+                    ln, beg = pc[1], pc[2]
+                    seq.append(('field', ln, pos, pos if beg is None
+                                else beg))
+                    pos += ln or 0
+            total = pos
+            # every _to_str field begins where it is placed
+            ok = total == 25 and all(
+                x[0] != 'field' or x[3] == x[2] for x in seq)
+            # and every printed field is exactly one parser group (same
+            # start, same width); literals fall on parser literals or on
+            # groups that match only that literal text (':', '000')
+            pstart = {}
+            q = 0
+            for k_, w in widths:
+                pstart[q] = (k_, w)
+                q += w
+            ok = ok and q == 25 and all(
+                x[0] != 'field' or pstart.get(x[2], (None, None))[1] == x[1]
+                for x in seq)
+        r7.ob(ok, 'CIMDateTime.__str__:' + kind,
+              {'kind': kind, 'printer_layout': seq, 'total_width': total,
+               'parser_pattern': pat, 'parser_field_widths': widths})
+        # every group that takes a printed number accepts all digit strings
+        sets_ = _regex_field_charsets(pat) if pat else None
+        if ok and sets_ is not None:
+            q = 0
+            starts = {}
+            for k_, cs in sets_:
+                starts[q] = (k_, cs)
+                q += len(cs)
+            for x in seq:
+                if x[0] != 'field' or x[1] in (None, 1):
+                    continue          # literals and the one-character sign
+                k_, cs = starts.get(x[2], (None, []))
+                narrow = [i for i, c in enumerate(cs)
+                          if c is not None and
+                          not set('0123456789') <= c]
+                okd = k_ == 'group' and not narrow
+                r7.ob(okd, 'CIMDateTime.__str__:%s:digits@%d' % (kind, x[2]))
+                if not okd:
+                    rep.finding(r7, dt.name + '.' + pats[kind],
+                                '%s field at column %d' % (kind, x[2]),
+                                'digit-range', TYP,
+                                getattr(dt.consts.get(pats[kind]), 'lineno',
+                                        strf.node.lineno),
+                                'the parser group for the %d-digit field at '
+                                'column %d of the %s string does not accept '
+                                'every digit (position(s) %s): values the '
+                                'printer writes there (e.g. a UTC offset of '
+                                '900..999 minutes) are rejected when the '
+                                'string is parsed back'
+                                % (x[1], x[2], kind, narrow))
+        if not ok:
+            rep.finding(r7, strf.qualname, kind + ' layout', 'layout', TYP,
+                        strf.node.lineno,
+                        'the %s string is not the 25-character layout its '
+                        'own parser pattern expects (printer fields %s, '
+                        'total %s; parser widths %s)'
+                        % (kind, [(x[1], x[2]) for x in seq], total, widths))
+
+
+def _regex_field_charsets(pattern):
+    """[(kind, [charset per position])] for the top-level items of a
+    datetime pattern; a position whose characters are not evident is None"""
+    from .. import rx
+    p = rx.parse(pattern)
+    out = []
+
+    def one(op2, av2):
+        s2 = str(op2)
+        if s2 == 'LITERAL':
+            return [{chr(av2)}]
+        if s2 == 'IN':
+            c = rx.class_chars(av2)
+            return [None if c is rx.ALL else set(c)]
+        if s2 == 'MAX_REPEAT' and av2[0] == av2[1]:
+            inner = []
+            for o3, a3 in av2[2]:
+                r_ = one(o3, a3)
+                if r_ is None:
+                    return None
+                inner += r_
+            return inner * av2[0]
+        return None
+    for op, av in p:
+        sop = str(op)
+        if sop == 'AT':
+            continue
+        if sop == 'SUBPATTERN':
+            cs = []
+            for op2, av2 in av[3]:
+                r_ = one(op2, av2)
+                if r_ is None:
+                    return None
+                cs += r_
+            out.append(('group', cs))
+        elif sop == 'LITERAL':
+            out.append(('lit', [{chr(av)}]))
+        else:
+            return None
+    return out
 
 
 def _regex_field_widths(pattern):
